@@ -3869,9 +3869,18 @@ impl Compiler {
 
         let stack_count = self.stack_count();
 
-        let match_register = self
-            .compile_node(match_expression, ctx.with_any_register())?
-            .unwrap(self)?;
+        let match_value = self.compile_node(match_expression, ctx.with_any_register())?;
+        let match_register = if match_value.is_temporary {
+            match_value.unwrap(self)?
+        } else {
+            // The value is held in a local's register, which could be reassigned by a pattern
+            // or by the match result itself while arms are still being tested, so match against
+            // a temporary copy.
+            let local_register = match_value.unwrap(self)?;
+            let temp_register = self.push_register()?;
+            self.push_op(Op::Copy, &[temp_register, local_register]);
+            temp_register
+        };
         let match_len = match ctx.node(match_expression) {
             Node::TempTuple(expressions) => expressions.len(),
             _ => 1,
